@@ -189,7 +189,13 @@ class SimTCPTransport(asyncio.Transport):
             return
         self.closed = True
         self.conn._client_closed()
-        self.net.loop.call_soon(self._lost, None)
+        lag = getattr(self.net, "tcp_close_lag", 0.0)
+        if lag:
+            # asyncio reports connection_lost for a closed transport only when its write buffer is flushed - later, when
+            # the peer is slow to read
+            self.net.loop.call_later(lag, self._lost, None)
+        else:
+            self.net.loop.call_soon(self._lost, None)
 
     def abort(self):
         self.close()
